@@ -54,7 +54,14 @@ TheoryStates == <<
     Speed |-> Whole(21), MachNumber |-> Whole(3), DynamicPressure |-> Frac(1323, 4), DynamicKinematicPressure |-> Frac(441, 2), TotalPressure |-> Frac(1533, 4),
     StaticKinematicPressure |-> Whole(35), TotalKinematicPressure |-> Frac(511, 2), DynamicViscosity |-> Frac(9, 4), KinematicViscosity |-> Frac(3, 2),
     Length |-> Whole(2), ReynoldsNumber |-> Whole(28), ScalarThermalConductivity |-> Frac(7, 8), ThermalDiffusivity |-> Frac(1, 6), PrandtlNumber |-> Whole(9),
-    Mass |-> Whole(4), IsobaricHeatCapacity |-> Whole(14), IsochoricHeatCapacity |-> Whole(10), GasConstant |-> Whole(4) ] >>
+    Mass |-> Whole(4), IsobaricHeatCapacity |-> Whole(14), IsochoricHeatCapacity |-> Whole(10), GasConstant |-> Whole(4) ],
+  \* a heavy polyatomic gas: the heat capacity ratio is close to one (and dyadic, so that the state is exactly representable in binary)
+  [ SpecificIsochoricHeatCapacity |-> Whole(64), HeatCapacityRatio |-> Frac(33, 32), SpecificIsobaricHeatCapacity |-> Whole(66), SpecificGasConstant |-> Whole(2),
+    Temperature |-> Whole(528), SoundSpeed |-> Whole(33), MassDensity |-> Whole(2), StaticPressure |-> Whole(2112), IsentropicBulkModulus |-> Whole(2178),
+    Speed |-> Whole(11), MachNumber |-> Frac(1, 3), DynamicPressure |-> Whole(121), DynamicKinematicPressure |-> Frac(121, 2), TotalPressure |-> Whole(2233),
+    StaticKinematicPressure |-> Whole(1056), TotalKinematicPressure |-> Frac(2233, 2), DynamicViscosity |-> Whole(6), KinematicViscosity |-> Whole(3),
+    Length |-> Whole(9), ReynoldsNumber |-> Whole(33), ScalarThermalConductivity |-> Whole(11), ThermalDiffusivity |-> Frac(1, 12), PrandtlNumber |-> Whole(36),
+    Mass |-> Whole(3), IsobaricHeatCapacity |-> Whole(198), IsochoricHeatCapacity |-> Whole(192), GasConstant |-> Whole(6) ] >>
 
 (* ---- exact rational arithmetic on small numbers (TLC integers are 32-bit; it reports overflow) ---- *)
 RECURSIVE IPow(_, _)
